@@ -193,28 +193,47 @@ Section Child.
 End Child.
 
 (* ---------- parent-side API of a persistent worker over its result stream ---------- *)
-Inductive pop := PEnq (e : enq) | PNext | PClose | PWait | PCall (e : enq).
+(* PDie: the caller enqueues an input on which the target raises - the worker then dies ON ITS OWN (nobody terminates, closes or waits
+   for it); the parent object learns of it only when it asks. *)
+Inductive pop := PEnq (e : enq) | PNext | PClose | PWait | PCall (e : enq) | PDie.
 Inductive pobs := OVal (r : Z) | OEmpty | OClosedErr | OOk | OResult (n : nat) | OWouldBlock.
 
-Record pst := mkP { unread : list Z; p_closed : bool; p_dead : bool; n_enq : nat }.
+(* p_dead: the child is gone; p_known_dead: the parent object has found out (cached `_dead`); p_failed: it died of an error of the target *)
+Record pst := mkP { unread : list Z; p_closed : bool; p_dead : bool; p_known_dead : bool; p_failed : bool; n_enq : nat }.
+Definition pst0 : pst := mkP [] false false false false O.
+
+Definition guard_good (gd : enq_guard) : bool := g_asks_alive gd && g_checks_closed gd.
 
 Section Parent.
+  Variable gd : enq_guard.      (* what enqueue looks at (generated) *)
   Variable g : enq -> Z.        (* the target applied to the merged arguments of an enqueue *)
+  Definition refused (s : pst) : bool :=
+    (g_checks_closed gd && p_closed s) || (g_asks_alive gd && p_dead s) || (g_reads_cached_dead gd && p_known_dead s).
+  Definition taking (s : pst) : bool := negb (p_closed s || p_dead s).     (* the child still reads its input *)
   Definition pstep (s : pst) (o : pop) : pst * pobs :=
     match o with
-    | PEnq e => if p_closed s || p_dead s then (s, OClosedErr)
-                else (mkP (unread s ++ [g e]) false false (S (n_enq s)), OOk)
+    | PEnq e => if refused s then (s, OClosedErr)
+                else if taking s then (mkP (unread s ++ [g e]) false false false false (S (n_enq s)), OOk)
+                else (s, OOk)        (* accepted into a queue which nobody reads any more *)
     | PNext => match unread s with
-               | r :: t => (mkP t (p_closed s) (p_dead s) (n_enq s), OVal r)
-               | [] => if p_closed s || p_dead s then (s, OEmpty) else (s, OWouldBlock)
+               | r :: t => (mkP t (p_closed s) (p_dead s) (p_dead s) (p_failed s) (n_enq s), OVal r)
+               | [] => if p_closed s || p_dead s then (mkP [] (p_closed s) (p_dead s) (p_dead s) (p_failed s) (n_enq s), OEmpty) else (s, OWouldBlock)
                end
-    | PClose => (mkP (unread s) true (p_dead s) (n_enq s), OOk)
-    | PWait => (mkP (unread s) true true (n_enq s), OResult (n_enq s))
-    | PCall e => if p_closed s || p_dead s then (s, OClosedErr)
-                 else match unread s ++ [g e] with
-                      | r :: t => (mkP t false false (S (n_enq s)), OVal r)
+    | PClose => (mkP (unread s) true (p_dead s) (p_known_dead s) (p_failed s) (n_enq s), OOk)
+    | PWait => (mkP (unread s) true true true (p_failed s) (n_enq s), if p_failed s then OEmpty else OResult (n_enq s))
+    | PCall e => if refused s then (s, OClosedErr)
+                 else if taking s then
+                      match unread s ++ [g e] with
+                      | r :: t => (mkP t false false false false (S (n_enq s)), OVal r)
                       | [] => (s, OWouldBlock)
                       end
+                 else match unread s with
+                      | r :: t => (mkP t (p_closed s) (p_dead s) (p_dead s) (p_failed s) (n_enq s), OVal r)
+                      | [] => (mkP [] (p_closed s) (p_dead s) (p_dead s) (p_failed s) (n_enq s), OEmpty)
+                      end
+    | PDie => if refused s then (s, OClosedErr)
+              else if taking s then (mkP (unread s) false true false true (n_enq s), OOk)
+              else (s, OOk)
     end.
   Fixpoint prun (s : pst) (ops : list pop) : list pobs :=
     match ops with [] => [] | o :: r => let '(s', ob) := pstep s o in ob :: prun s' r end.
